@@ -135,7 +135,7 @@ for l in open("/verif/properties.jsonl"):
     if rnd == 5:
         kind = f"For this task, aim your change at: {KINDS5[pid]}.\n"
     if rnd >= 14:
-        kind = ("For this task you choose the mechanism yourself. A verification tool has already been hardened against thirteen rounds of seeded changes "
+        kind = ("For this task you choose the mechanism yourself. A verification tool has already been hardened against many rounds of seeded changes "
                 "of the following kinds, so AVOID all of them: wrong constants / signs / operand order on generic inputs; special values and sign "
                 "patterns (exact zeros, ties, signed zeros, dyadic data); shape corners (1 x n, n x 1, extreme aspect ratios) and size thresholds / "
                 "blocked loops; memory layout, dtype and numpy-scalar handling; call forms (keyword / positional / explicit defaults / verbose / return "
@@ -143,7 +143,11 @@ for l in open("/verif/properties.jsonl"):
                 "extreme magnitudes; scipy.sparse storage forms and empty component planes; option x input-class fast paths; cleanup thresholds and "
                 "other silent accuracy losses; tolerances ignored or hard-wired; algorithm substitutions valid only under commutativity / definiteness / "
                 "full rank / distinctness / normality; failure handling (swallowed exceptions, silent fallbacks, early returns, flags computed from stale "
-                "quantities); structured inputs such as Hermitian, hollow, nilpotent, reducible, badly scaled or graded matrices. Think about what a "
+                "quantities); structured inputs such as Hermitian, hollow, nilpotent, reducible, badly scaled or graded matrices" + ("; NEAR-coincidences "
+                "(np.isclose / allclose with default rtol: near ties, near-equal values, operands near A^H, near-real or near-unit data); classical "
+                "worst-case matrices (Kahan, glued Wilkinson, spiky-versus-flat rows, singular-value clusters ten orders apart); recurrences "
+                "restarted or frozen after many steps; rare random starts; module-level scratch buffers under concurrent callers; container or "
+                "shape coincidences with the number 4" if rnd >= 15 else "") + ". Think about what a "
                 "checker that samples inputs (including all of the above classes) and compares with independent references would STILL be least "
                 "likely to notice for this particular property, and build your change there. Explain in meta.json why you expect it to be missed.\n")
     elif rnd >= 13:
